@@ -8,7 +8,9 @@ mod node;
 mod rcprog;
 mod rcrun;
 mod rng;
+mod scen;
 mod sched;
+mod seq;
 
 use json::J;
 use std::collections::HashMap;
@@ -93,6 +95,47 @@ fn main() {
                 println!("{}", rcrun::summary(&cfg, &st, t0.elapsed().as_secs_f64()).to_string());
             }
         }
+        "seq" => {
+            let which = args.str("check", "c10");
+            let prop: &'static str = Box::leak(which.to_uppercase().into_boxed_str());
+            mon::install_panic_hook(prop);
+            install_hooks();
+            sched::set_mode(sched::Mode::Off);
+            let seed = args.u64("seed", 1);
+            let thorough = args.str("tier", "quick") == "thorough";
+            let out = match which.as_str() {
+                "c10" => seq::c10(seed, thorough),
+                "c11" => seq::c11(seed, thorough),
+                "c12" => seq::c12(seed, thorough),
+                "c19" => seq::c19(seed),
+                "c06" => seq::c06(seed, thorough),
+                _ => mon::harness_error("unknown seq check"),
+            };
+            println!("{}", seq::summary(&which, out, t0.elapsed().as_secs_f64()).to_string());
+        }
+        "scen" => {
+            let which = args.str("which", "all");
+            let prop: &'static str = Box::leak(args.str("prop", "C02").into_boxed_str());
+            mon::install_panic_hook(prop);
+            install_hooks();
+            let thorough = args.str("tier", "quick") == "thorough";
+            let out = scen::run_all(&which, args.u64("shard", 0), args.u64("nshards", 1), thorough);
+            let j = J::obj()
+                .set("type", "summary")
+                .set("profile", format!("scen-{}", which))
+                .set("mode", "Serial-scripted")
+                .set("execs", out.execs)
+                .set("inconclusive_cut", out.execs - out.materialised)
+                .set("distinct", out.hashes.len())
+                .set("nontrivial_hashes", J::A(out.hashes.iter().map(|h| J::S(format!("{:x}", h))).collect()))
+                .set("scenarios", &out.by)
+                .set("samples", J::A(out.samples))
+                .set("events", mon::ev_counts_json())
+                .set("monitor_evals", mon::evals_json())
+                .set("wall_s", t0.elapsed().as_secs_f64());
+            println!("{}", j.to_string());
+        }
+        "noop" => {}
         _ => {
             println!("{}", J::obj().set("type", "harness_error").set("detail", format!("unknown command {:?}", cmd)).to_string());
             std::process::exit(4);
